@@ -24,12 +24,7 @@
 (*   C[a]    = m*Sum(x_a y)   - Sum(x_a) Sum(y)    ( = m^2 cov(x_a, y)   ) *)
 (* and solved by Cramer's rule (K = 1, 2).                                 *)
 (***************************************************************************)
-EXTENDS Naturals, Integers, Sequences, FiniteSets
-
-PINF == 100000
-NINF == -100000
-NAN == 100001
-IsFin(v) == v > NINF /\ v < PINF
+EXTENDS Naturals, Integers, Sequences, FiniteSets, FixedPoint
 
 RECURSIVE SumF(_, _)
 SumF(f, F) == IF F = {} THEN 0 ELSE LET i == CHOOSE j \in F : TRUE IN f[i] + SumF(f, F \ {i})
@@ -37,8 +32,6 @@ SumF(f, F) == IF F = {} THEN 0 ELSE LET i == CHOOSE j \in F : TRUE IN f[i] + Sum
 RECURSIVE SortedSeq(_)
 SortedSeq(F) == IF F = {} THEN <<>>
                 ELSE LET x == CHOOSE y \in F : \A z \in F : y <= z IN <<x>> \o SortedSeq(F \ {x})
-
-Abs(x) == IF x < 0 THEN -x ELSE x
 
 \* ---- _get_finite ------------------------------------------------------------
 RowFinite(S, th, i) == IsFin(th[i]) /\ \A a \in 1..Len(S[i]) : IsFin(S[i][a])
@@ -100,16 +93,6 @@ Adjusted(S, obs, th) ==
 \* ---- rationals ----------------------------------------------------------------
 RatEq(p, q) == p[1] * q[2] = q[1] * p[2]
 SeqRatEq(s, t) == Len(s) = Len(t) /\ \A q \in 1..Len(s) : RatEq(s[q], t[q])
-
-\* floor(N * 10^6 / D) by long division, D > 0 (TLC integers are 32 bit: needs 10*D < 2^31 and
-\* |N \div D| <= 2146).  \div and % are floor division / non-negative remainder.
-RECURSIVE Digits(_, _, _, _)
-Digits(r, D, k, acc) == IF k = 0 THEN acc
-                        ELSE Digits((r * 10) % D, D, k - 1, acc * 10 + ((r * 10) \div D))
-FxFloor(N, D) == Digits(N % D, D, 6, N \div D)
-FxRepresentable(N, D) == D > 0 /\ D <= 200000000 /\ Abs(N \div D) <= 2000
-\* a float within << 1/2 unit of N/D, rounded to the unit 10^-6, is the floor or the floor + 1
-FxMatches(v, N, D) == LET lo == FxFloor(N, D) IN v = lo \/ v = lo + 1
 
 \* ---- affine re-expression of the summaries --------------------------------------
 \* s' = M s + v on finite rows (rows with a non-finite summary keep their markers), obs' = M obs + v
